@@ -214,6 +214,8 @@ def docstring(
                 if len(candidate_doc_str) == next_nl
                 or next_nl + 1 < len(candidate_doc_str)
                 and candidate_doc_str[next_nl + 1] != "\n"
+                # No header: the first line opens the args/returns section; keep it attached to its body
+                and line.strip() != candidate_args_returns.strip().partition("\n")[0]
                 else next_nl + 1
             ) :
         ].splitlines()
